@@ -412,8 +412,8 @@ var corpus = []scripted{
 			h.connectQuiet()
 			h.sc.opts.lossRate = 1000 // the PINGRESP is late
 			h.ping()
-			h.quit(h.nextR - 1) // abandoned after submission
-			h.ping()            // a second PINGREQ goes out
+			h.quit(h.nextR - 1)                                                                // abandoned after submission
+			h.ping()                                                                           // a second PINGREQ goes out
 			h.sc.inject = [][]byte{{0xd0, 0}, brokerPublish(0, false, 0, "in/p", []byte("x"))} // the answer to the FIRST one
 			h.doRead()
 			h.sc.opts.lossRate = 0
